@@ -131,7 +131,7 @@ def run(ctx):
                 "history with an eviction or a rejected access / program with at least two memory accesses.")
     ctx.assumptions += [
         "a backing-store cell holding 0 is merged with an absent cell in the state key (reads cannot tell them apart)",
-        "counters are excluded from the state key (checked per transition by C09)",
+        "counter values are excluded from the state key (checked per transition by C09) except for zero / non-zero",
         "write values are one distinctive constant per width plus a second byte value",
     ]
     for cfg, depth in configs(ctx):
